@@ -101,6 +101,64 @@ let parse_eid (s : string) : eid =
   | [i; g] -> (nat_of_int (int_of_string i), n_of_string g)
   | _ -> failwith ("bad eid " ^ s)
 
+(* ---- queries (C03): views and filter are spelled out in the op line ---- *)
+let parse_view (s : string) : view =
+  if s = "id" then VIdent else
+    let kind, rest =
+      if String.length s >= 2 && String.sub s 0 2 = "or" then KOptRef, String.sub s 2 (String.length s - 2)
+      else if String.length s >= 2 && String.sub s 0 2 = "om" then KOptMut, String.sub s 2 (String.length s - 2)
+      else if s.[0] = 'r' then KRef, String.sub s 1 (String.length s - 1)
+      else KMut, String.sub s 1 (String.length s - 1) in
+    VComp (kind, nat_of_int (int_of_string rest))
+
+let parse_views (s : string) : view list =
+  if s = "-" then [] else List.map parse_view (String.split_on_char ';' s)
+
+let parse_filter (s : string) : qfilter =
+  let pos = ref 0 in
+  let peek () = s.[!pos] in
+  let adv () = incr pos in
+  let number () =
+    let st = !pos in
+    while !pos < String.length s && s.[!pos] >= '0' && s.[!pos] <= '9' do incr pos done;
+    int_of_string (String.sub s st (!pos - st)) in
+  let rec go () =
+    match peek () with
+    | 'n' -> adv (); FNone
+    | 'h' -> adv (); FHas (nat_of_int (number ()))
+    | '!' -> adv (); FNot (go ())
+    | '&' | '|' as c ->
+      adv (); adv ();                      (* operator and '(' *)
+      let a = go () in adv ();              (* ',' *)
+      let b = go () in adv ();              (* ')' *)
+      if c = '&' then FAnd (a, b) else FOr (a, b)
+    | 'v' ->
+      adv (); adv ();
+      let st = !pos in
+      while s.[!pos] <> ']' do incr pos done;
+      let vs = parse_views (String.sub s st (!pos - st)) in
+      adv (); FViews vs
+    | c -> failwith (Printf.sprintf "bad filter char %c" c) in
+  go ()
+
+let fmt_item (it : qitem) : string =
+  match it with
+  | QId e -> fmt_eid e
+  | QVal v -> "v" ^ string_of_n v
+  | QOpt (Some v) -> "s" ^ string_of_n v
+  | QOpt None -> "n"
+
+let fmt_row (r : qitem list) : string =
+  match r with [] -> "_" | _ -> String.concat "," (List.map fmt_item r)
+
+let norm_comp (c : int) (v : n) : n =
+  let m k = N.modulo v (n_of_string k) in
+  if c = 1 || c = 9 then N0
+  else if c = 4 || c = 5 || c = 11 || c = 13 || c = 15 then m "4294967296"
+  else if c = 7 then m "65536"
+  else if c = 8 then m "256"
+  else m "18446744073709551616"
+
 exception ModelUB of string
 
 let apply (toks : string list) (buf : Buffer.t) =
@@ -177,6 +235,57 @@ let apply (toks : string list) (buf : Buffer.t) =
      let k = u 3 in
      let cs = List.init k (fun j -> nat_of_int (u (4 + j))) in
      single (u 1) (Reserve cs)
+   | "qry" ->
+     let ws = u 1 in
+     ensure ws;
+     (match !worlds.(ws) with
+      | None -> ()
+      | Some w ->
+        match query_impl w (parse_views arr.(3)) (parse_filter arr.(4)) with
+        | None -> raise (ModelUB "query")
+        | Some rows -> ret := String.concat " " ("rows" :: List.sort compare (List.map fmt_row rows)))
+   | "eqry" ->
+     let ws = u 1 in
+     ensure ws;
+     (match !worlds.(ws) with
+      | None -> ()
+      | Some w ->
+        let e = parse_eid arr.(2) in
+        if not (is_active w e) then ret := "noentry" else
+        match entry_query w e (parse_views arr.(4)) (parse_filter arr.(5)) with
+        | None -> raise (ModelUB "entry query")
+        | Some None -> ret := "nomatch"
+        | Some (Some r) -> ret := "row " ^ fmt_row r)
+   | "qwr" ->
+     let ws = u 1 in
+     ensure ws;
+     (match !worlds.(ws) with
+      | None -> ()
+      | Some w ->
+        let vs = parse_views arr.(4) in
+        let delta = nv 3 in
+        match query_impl w (VIdent :: vs) (parse_filter arr.(5)) with
+        | None -> raise (ModelUB "query")
+        | Some rows ->
+          let count = ref 0 in
+          let allev = ref [] in
+          List.iter (fun row ->
+              match row with
+              | QId e :: items ->
+                List.iter2 (fun v it ->
+                    match v, it with
+                    | VComp ((KMut | KOptMut), c), (QVal old | QOpt (Some old)) ->
+                      let ci = int_of_nat c in
+                      (match !worlds.(ws) with
+                       | Some w1 ->
+                         (match step w1 (WriteMut (e, c, norm_comp ci (N.add old delta))) with
+                          | Some ((w2, _), ev) -> !worlds.(ws) <- Some w2; allev := ev @ !allev; incr count
+                          | None -> raise (ModelUB "write"))
+                       | None -> ())
+                    | _ -> ()) vs items
+              | _ -> ()) rows;
+          evs := fmt_events !allev;
+          ret := Printf.sprintf "n %d" !count)
    | "shr" -> single (u 1) ShrinkToFit
    | "rset" ->
      let v = if u 2 = 2 then n_of_string (string_of_int (int_of_string arr.(3) land 0xFFFFFFFF)) else nv 3 in
